@@ -193,7 +193,8 @@ CHECKS = {
          "PLAIN / dictionary. The reader side for v1 pages is inside the model too: Impl.ReadPage (code-shaped model of core.read_data_page - read_def, the "
          "skip_definition_bytes shortcut, read_plain, the np.frombuffer shortcut for 8/16/32-bit codes - and of read_col's placement) is tied to the real "
          "function on every v1 page the run writes (rpage.v1), and read_back_written_page / read_back_written_column prove reader-model(writer-model(cells)) = cells "
-         "for any cells, any page cuts, REQUIRED / OPTIONAL, PLAIN / dictionary, with or without the no-null shortcut. range_index_regenerated_now: a written RangeIndex of any start and non-zero step is regenerated with exactly one "
+         "for any cells, any page cuts, REQUIRED / OPTIONAL, PLAIN / dictionary, with or without the no-null shortcut (read_back_written_chunk_by_statistics: the "
+         "shortcut decided by the writer's own recorded null_count; read_guards_now: the regenerated conditions under which read_col takes it). range_index_regenerated_now: a written RangeIndex of any start and non-zero step is regenerated with exactly one "
          "label per row (over the stop expression REGENERATED from api.py).",
          "Trusted: Lean kernel + standard axioms for the component theorems; dtype/metadata restoration (pandas metadata JSON, tz, "
          "categorical flags, numpy views in dataframe.empty) is outside the model and covered by the oracle only.",
@@ -211,7 +212,9 @@ CHECKS = {
          "of pages of any sizes, v1/v2, REQUIRED/OPTIONAL, PLAIN or dictionary with 1/2/4-byte codes), counts the rows written, finds every run "
          "tightly framed and returns exactly the cells that went in; written_chunk_metadata_describes_pages for encodings / encoding_stats. The model "
          "is tied to the real writer by the wpage.chunk correspondence: every page payload (decompressed) and header number of every file written "
-         "in the run equals the model's bytes.",
+         "in the run equals the model's bytes. Validator soundness: accepted_pages_tile_the_chunk, accepted_pages_count_rows, accepted_pages_one_level_per_value "
+         "(what Spec.File accepts as the pages of a chunk tiles it, and its row / level counts add up). write_layout_now / def_layout_now: the layout arithmetic of "
+         "encode_dict / make_definitions is REGENERATED and the model is built from it.",
          "Trusted: Lean kernel + standard axioms; the Lean compiler for executing Spec.File; cramjam for decompressing page payloads; "
          "fidelity of Spec.File to the Parquet documents is by construction and reading, no second implementation is installed.",
          "Lean 4 proof (writer model's chunks decode to their cells under the specification reader) + byte-exact writer correspondence + executable specification reader with IDL-typed validation", "§6 C02"),
